@@ -104,8 +104,11 @@ class RoundTripLeg(object):
                 draw(st.sampled_from(["+", "-", "."])),
                 draw(st.sampled_from([".", "0"])),
             ]
+            dd = _dialect(fmt, sep, kv, quoted, repeated, trailing)
+            if fmt == "gff3" and draw(st.integers(0, 5)) == 0:
+                dd["leading semicolon"] = True  # what inference reports for "Transcript B0019.1; ;Note ..." style text
             return {
-                "dialect": _dialect(fmt, sep, kv, quoted, repeated, trailing),
+                "dialect": dd,
                 "attrs": attrs,
                 "cols": cols,
                 "extras": extras,
